@@ -7,7 +7,9 @@ package verifsync
 
 import (
 	"fmt"
+	"runtime"
 	"sync"
+	"time"
 	"unsafe"
 )
 
@@ -19,6 +21,7 @@ type Chooser interface {
 
 type thread struct {
 	id      int
+	goid    uint64 // runtime id of the goroutine running this controlled thread
 	resume  chan struct{}
 	enabled func() bool // nil = always enabled
 	done    bool
@@ -31,18 +34,19 @@ type thread struct {
 
 // Sched is one controlled execution.
 type Sched struct {
-	threads  []*thread
-	cur      *thread
-	chooser  Chooser
-	parked   chan *thread
-	Deadlock bool
-	Blocked  []string // what the blocked threads wait for when a deadlock is found
-	Panics   []string
-	Points   int
-	Switches []int                     // thread ids in scheduling order (the schedule)
-	versions map[unsafe.Pointer]uint64 // write counter per atomically accessed location
-	Livelock bool                      // only spinning threads were left, repeatedly
-	wakeups  int
+	threads      []*thread
+	cur          *thread
+	chooser      Chooser
+	parked       chan *thread
+	Deadlock     bool
+	Blocked      []string // what the blocked threads wait for when a deadlock is found
+	Panics       []string
+	Points       int
+	Switches     []int                     // thread ids in scheduling order (the schedule)
+	versions     map[unsafe.Pointer]uint64 // write counter per atomically accessed location
+	Livelock     bool                      // only spinning threads were left, repeatedly
+	wakeups      int
+	foreignWaits int
 }
 
 var active *Sched
@@ -55,11 +59,15 @@ func Run(ch Chooser, bodies ...func()) *Sched {
 	s := &Sched{chooser: ch, parked: make(chan *thread), versions: map[unsafe.Pointer]uint64{}}
 	active = s
 	defer func() { active = nil }()
+	stateMu.Lock()
+	foreignHolds = 0
+	stateMu.Unlock()
 	for i, b := range bodies {
 		t := &thread{id: i, resume: make(chan struct{}), what: "start"}
 		s.threads = append(s.threads, t)
 		b := b
 		go func() {
+			t.goid = goid()
 			<-t.resume
 			defer func() {
 				if x := recover(); x != nil {
@@ -111,6 +119,14 @@ func Run(ch Chooser, bodies ...func()) *Sched {
 				s.Livelock = true
 				return s
 			}
+			stateMu.Lock()
+			fh := foreignHolds
+			stateMu.Unlock()
+			if fh > 0 && s.foreignWaits < 100000 { // a goroutine outside the scheduler holds a lock: it will release it
+				s.foreignWaits++
+				time.Sleep(20 * time.Microsecond)
+				continue
+			}
 			s.Deadlock = true
 			for _, t := range s.threads {
 				if !t.done {
@@ -132,9 +148,28 @@ func Run(ch Chooser, bodies ...func()) *Sched {
 	}
 }
 
+// goid returns the runtime id of the calling goroutine (parsed from the first line of its stack trace).
+func goid() uint64 {
+	var buf [40]byte
+	n := runtime.Stack(buf[:], false)
+	var id uint64
+	for _, c := range buf[len("goroutine "):n] {
+		if c < '0' || c > '9' {
+			break
+		}
+		id = id*10 + uint64(c-'0')
+	}
+	return id
+}
+
 // park is a scheduling point of the calling (current) thread.
 func (s *Sched) park(enabled func() bool, what string) {
 	t := s.cur
+	// A goroutine the package under test started itself (a server goroutine, a timer callback) is not a controlled thread:
+	// its operations are not scheduling points (what it does concurrently is the business of the free-running race pass).
+	if t == nil || goid() != t.goid {
+		return
+	}
 	t.enabled, t.what = enabled, what
 	s.parked <- t
 	<-t.resume
@@ -189,8 +224,18 @@ func CurrentThread() int {
 type Mutex struct {
 	real   sync.Mutex
 	locked bool
-	owner  int
+	owner  int // controlled thread id, or -1 when a goroutine outside the scheduler holds it
 }
+
+// stateMu guards the shim state against goroutines the package under test started itself (server goroutines, timer
+// callbacks): they are not scheduled, but their locking must still exclude the controlled threads and vice versa.
+var (
+	stateMu      sync.Mutex
+	foreignHolds int // number of shim mutexes currently held by goroutines outside the scheduler
+)
+
+// foreign reports whether the caller is not the running controlled thread.
+func (s *Sched) foreign() bool { t := s.cur; return t == nil || goid() != t.goid }
 
 func (m *Mutex) Lock() {
 	s := active
@@ -198,8 +243,29 @@ func (m *Mutex) Lock() {
 		m.real.Lock()
 		return
 	}
-	s.park(func() bool { return !m.locked }, "Mutex.Lock")
-	m.locked, m.owner, s.cur.spinAddr = true, s.cur.id, nil
+	if s.foreign() {
+		for {
+			stateMu.Lock()
+			if !m.locked {
+				m.locked, m.owner = true, -1
+				foreignHolds++
+				stateMu.Unlock()
+				return
+			}
+			stateMu.Unlock()
+			time.Sleep(20 * time.Microsecond)
+		}
+	}
+	for {
+		s.park(func() bool { stateMu.Lock(); defer stateMu.Unlock(); return !m.locked }, "Mutex.Lock")
+		stateMu.Lock()
+		if !m.locked {
+			m.locked, m.owner, s.cur.spinAddr = true, s.cur.id, nil
+			stateMu.Unlock()
+			return
+		}
+		stateMu.Unlock()
+	}
 }
 
 func (m *Mutex) TryLock() bool {
@@ -207,9 +273,18 @@ func (m *Mutex) TryLock() bool {
 	if s == nil {
 		return m.real.TryLock()
 	}
-	s.park(nil, "Mutex.TryLock")
+	if !s.foreign() {
+		s.park(nil, "Mutex.TryLock")
+	}
+	stateMu.Lock()
+	defer stateMu.Unlock()
 	if m.locked {
 		return false
+	}
+	if s.foreign() {
+		m.locked, m.owner = true, -1
+		foreignHolds++
+		return true
 	}
 	m.locked, m.owner = true, s.cur.id
 	return true
@@ -221,10 +296,16 @@ func (m *Mutex) Unlock() {
 		m.real.Unlock()
 		return
 	}
+	stateMu.Lock()
 	if !m.locked {
+		stateMu.Unlock()
 		panic("sync: unlock of unlocked mutex")
 	}
+	if m.owner == -1 {
+		foreignHolds--
+	}
 	m.locked = false
+	stateMu.Unlock()
 	s.park(nil, "after Mutex.Unlock")
 }
 
